@@ -8,10 +8,17 @@
 (* finishRequest) is silent and inferred by TLC.                            *)
 (*                                                                          *)
 (*   {"e":"Reset","ix":J,"kind":"sse"|"mm","n":N,"ka":"t"|"f","disc":"t"|"f",*)
-(*    "nx":L}   J = number of the trace in the file, L = line of the next   *)
-(*              Reset (or last line + 1)                                    *)
+(*    "nx":L,"fail":F,"pos":P}                                              *)
+(*              J = number of the trace in the file, L = line of the next   *)
+(*              Reset (or last line + 1); F = position of the payload whose *)
+(*              serialization fails (0 = none); P = number of this request  *)
+(*              on its handler (1 = the handler - the server process - is   *)
+(*              fresh; P > 1: the trace before this one in the file is the  *)
+(*              previous request of the same handler)                       *)
 (*   {"e":"Tok","k":K,"id":I,"ids":[..],"hn":"t"|"f"|"-","rem":R}           *)
-(*        K in pre next ping complete bad | bnd hdr init incr close;        *)
+(*        K in pre next ping complete bad | bnd hdr init incr close |       *)
+(*        errblob (the bare JSON error object handler.Server's recover      *)
+(*        writes into a stream whose payload could not be encoded);         *)
 (*        runs of pings are collapsed to one token by the tokeniser;        *)
 (*        rem = Tok lines left in this stream, this one included            *)
 (*   {"e":"End","eof":"clean"|"cut"|"broken","produced":P}                  *)
@@ -27,6 +34,12 @@
 (* another access (dirty) on, the byte stream is unreliable (tokens may      *)
 (* vanish, `bad` blocks and duplicates may appear, the stream may break     *)
 (* off) - everything BEFORE that point is still checked strictly.           *)
+(*                                                                          *)
+(* Histories: a Reset line with pos > 1 keeps what the handler keeps between *)
+(* requests (Stream's `carry`) - nothing in the strict configuration, so a   *)
+(* later request is accepted iff it is a behaviour of a FRESH handler.      *)
+(* SharedBuf = TRUE (used only to name the deviation of a rejected trace):  *)
+(* an event of a request that follows a failed serialization may be `bad`.  *)
 (*                                                                          *)
 (* One TLC run examines EVERY trace of the file: with AllowSkip a behaviour *)
 (* may step over a whole trace (TSkip, only from its Reset line), so a      *)
@@ -50,7 +63,7 @@ IsEvent(e) == l <= Len(Trace) /\ Trace[l].e = e /\ l' = l + 1
 IsTok(k) == l <= Len(Trace) /\ Trace[l].e = "Tok" /\ Trace[l].k = k /\ l' = l + 1
 
 TraceInit ==
-  /\ InitWith("sse", 0, FALSE)
+  /\ InitWith("sse", 0, FALSE) /\ failAt = 0
   /\ l = 1 /\ cur = 0 /\ garbled = FALSE /\ sdisc = FALSE
   /\ TLCSet(1, 1) /\ TLCSet(2, {})
 
@@ -65,22 +78,28 @@ TReset ==
   /\ aInit' = FALSE /\ aDef' = <<>> /\ dsig' = FALSE
   /\ tpc' = (IF Trace[l].kind = "mm" THEN "run" ELSE "stopped")
   /\ garbled' = FALSE /\ sdisc' = (Trace[l].disc = "t") /\ cur' = Trace[l].ix
+  /\ failAt' = Trace[l].fail /\ req' = Trace[l].pos /\ crashed' = FALSE
+  /\ carry' = (IF Trace[l].pos = 1 THEN FALSE ELSE carry)
 
 \* step over the whole trace that starts at this Reset line
 TSkip ==
   /\ AllowSkip
   /\ l <= Len(Trace) /\ Trace[l].e = "Reset"
   /\ l' = Trace[l].nx
-  /\ UNCHANGED <<vars, cur, garbled, sdisc>>
+  \* SharedBuf: a skipped request whose serialization fails may leave a residue, any skipped request may use one up
+  /\ LET c0 == IF Trace[l].pos = 1 THEN FALSE ELSE carry   \* (a first request is served by a fresh handler)
+     IN carry' \in (IF SharedBuf /\ (Trace[l].fail > 0 \/ c0) THEN BOOLEAN ELSE {c0})
+  /\ UNCHANGED <<rvars, failAt, req, crashed, cur, garbled, sdisc>>
 
 Silent ==
   /\ \/ MWriteBegin \/ MFlushBegin \/ MFlushEnd \/ MStartKA \/ MRecv \/ MRecvNil \/ MReset \/ MClose
+     \/ MEncodeFail \/ MPanicClose \/ MPFlushBegin \/ MPFlushEnd \/ MBlobBegin
      \/ Tick \/ KPingBegin \/ KFlushBegin \/ KFlushEnd \/ KStop
      \/ ServerCancel \/ FinBegin \/ FinEnd
      \/ (sdisc /\ Disconnect)
-     \/ (disc /\ (MWriteEnd \/ KPingEnd))                       \* the client no longer sees what is written
+     \/ (disc /\ (MWriteEnd \/ KPingEnd \/ MBlobEnd))           \* the client no longer sees what is written
      \/ MMRecvAdd \/ MMRecvNil \/ MMDoneSig \/ MMTick \/ MMTickerStop
-     \/ ((FlushOut = <<>> \/ disc) /\ (MMFlushTick \/ MMDoneFlush))
+     \/ ((FlushEmit = <<>> \/ disc) /\ (MMFlushTick \/ MMDoneFlush))
   /\ UNCHANGED <<l, cur, garbled, sdisc>>
 
 \* Once a write has overlapped another access to the ResponseWriter (only
@@ -94,6 +113,10 @@ TNext == /\ IsTok("next") /\ ~disc
          /\ mtok.k = "next" /\ mtok.id = Trace[l].id
          /\ MWriteEnd /\ Seen("main") /\ UNCHANGED <<cur, sdisc>>
 TComplete == IsTok("complete") /\ ~disc /\ mtok.k = "complete" /\ MWriteEnd /\ Seen("main") /\ UNCHANGED <<cur, sdisc>>
+\* SharedBuf only (mtok.k = "bad" is unreachable otherwise): an event assembled on the residue of a failed serialization
+TBadEvent == IsTok("bad") /\ ~disc /\ mtok.k = "bad" /\ MWriteEnd /\ Seen("main") /\ UNCHANGED <<cur, sdisc>>
+\* the recovered panic's bare error object (both kinds)
+TBlob == IsTok("errblob") /\ ~disc /\ MBlobEnd /\ Seen("main") /\ UNCHANGED <<cur, sdisc>>
 TPing == IsTok("ping") /\ ~disc /\ KPingEnd /\ Seen("ka") /\ UNCHANGED <<cur, sdisc>>
 
 \* deviation: a write that overlapped another access, or any write after one, leaves no (intact) token
@@ -110,9 +133,9 @@ Match(tr, o) == /\ tr.k = o.k
 \* one aggregator flush = the next Len(FlushOut) tokens (any batching the model can
 \* reach is accepted); only a client that cut the stream may have seen part of a flush
 TFlush(A) ==
-  /\ ~disc /\ FlushOut # <<>>
+  /\ ~disc /\ FlushEmit # <<>>
   /\ l <= Len(Trace) /\ Trace[l].e = "Tok"
-  /\ LET out == FlushOut
+  /\ LET out == FlushEmit
          m == IF Len(out) <= Trace[l].rem THEN Len(out) ELSE Trace[l].rem
      IN /\ (m < Len(out) => sdisc)
         /\ \A i \in 1..m : Match(Trace[l + i - 1], out[i])
@@ -125,15 +148,19 @@ TEnd ==
   /\ CASE Trace[l].eof = "clean" ->
             /\ mpc = "returned" /\ ~disc
             /\ got = Trace[l].produced
-            /\ got = (IF kind = "sse" THEN n ELSE n + 1)
+            /\ failAt = 0 => got = (IF kind = "sse" THEN n ELSE n + 1)
+            /\ (failAt > 0 /\ kind = "sse") => got = failAt     \* the handler never asks for the payload after it
        [] Trace[l].eof = "cut" -> sdisc
        [] Trace[l].eof = "broken" -> (garbled \/ uaf)
        [] OTHER -> FALSE
   /\ TLCSet(2, TLCGet(2) \cup {cur})
   /\ UNCHANGED <<vars, cur, garbled, sdisc>>
 
-TraceNext == \/ TReset \/ TSkip \/ Silent \/ TPre \/ TNext \/ TComplete \/ TPing \/ AbsorbM \/ AbsorbK \/ TJunk
-             \/ TFlush(MMFlushTick) \/ TFlush(MMDoneFlush) \/ TEnd
+\* (a dead process takes no step and writes nothing: crashed streams are reported by the harness, not validated)
+TraceNext == \/ TReset \/ TSkip
+             \/ (~crashed /\ (\/ Silent \/ TPre \/ TNext \/ TComplete \/ TPing \/ TBadEvent \/ TBlob \/ AbsorbM \/ AbsorbK \/ TJunk
+                              \/ TFlush(MMFlushTick) \/ TFlush(MMDoneFlush)))
+             \/ TEnd
 TraceSpec == TraceInit /\ [][TraceNext]_tvars
 
 HighWater == TLCSet(1, IF l > TLCGet(1) THEN l ELSE TLCGet(1))
